@@ -214,7 +214,7 @@ theorem runSeq_none_some {inp : Bytes} {s : ActSeq} {m : M κ} {t : Trans}
 
 theorem runSeq_sim (F : Frame inpS inpW δ) (hops : OpsSim env.ops inpS inpW δ K) (fs : FlagMap) (st : StateId)
     (loops : Bool) (s : ActSeq) {d : Nat} {ab : Ab} (hok : seqOk env.tbl fs st ab loops s = true)
-    (hfsP : ∀ i, (fs i).1.P = false) {ms mw : M κ}
+    {ms mw : M κ}
     (h : MRel δ d 0 ab .none ms mw) (hK : K d ms.x.sink mw.x.sink) (hd : d = 0 ∨ StartsWithText s.calls)
     (hin : CallsIn inpS inpW δ ms.c.nextPos s.calls) :
     BodySim δ K fs st loops ms.c (runSeq env inpS s ms) (runSeq env inpW s mw) := by
@@ -264,8 +264,8 @@ theorem runSeq_sim (F : Frame inpS inpW δ) (hops : OpsSim env.ops inpS inpW δ 
             simp only [applyTrans]
             exact (hm1.goto _ _ (by rw [hm1.c.lastTextType])).weaken this
           | reconsume tg =>
-            simp only [Bool.and_eq_true] at hok
-            obtain ⟨hP, hle⟩ := hok
+            simp only [Bool.and_eq_true, Bool.not_eq_true'] at hok
+            obtain ⟨⟨hP, hfsP⟩, hle⟩ := hok
             simp only [applyTrans]
             have hnp := hm1.c.nextPos
             by_cases h0 : (runCalls env inpS s.calls ms).1.c.nextPos = 0
@@ -274,18 +274,18 @@ theorem runSeq_sim (F : Frame inpS inpW δ) (hops : OpsSim env.ops inpS inpW δ 
               refine Or.inr ⟨trivial, rfl, fun _ => ⟨hk1, ⟨{ hm1.c with state := rfl, entered := rfl, nextPos := ?_ }, ?_, hm1.sim, hm1.pc⟩, rfl⟩⟩
               · show (runCalls env inpW s.calls mw).1.c.nextPos - 1 + 0 = (runCalls env inpS s.calls ms).1.c.nextPos - 1 + δ
                 omega
-              · exact hm1.r.unconsume hP hle (hfsP tg)
+              · exact hm1.r.unconsume hP hle hfsP
 
 theorem runBody_sim (F : Frame inpS inpW δ) (hops : OpsSim env.ops inpS inpW δ K) (fs : FlagMap) (st : StateId)
     (loops : Bool) (b : Body) {d : Nat} {ab : Ab} (hok : bodyOk env.tbl fs st ab loops b = true)
-    (hfsP : ∀ i, (fs i).1.P = false) {ms mw : M κ}
+    {ms mw : M κ}
     (h : MRel δ d 0 ab .none ms mw) (hK : K d ms.x.sink mw.x.sink)
     (hd : d = 0 ∨ ∃ s, b = .seq s ∧ StartsWithText s.calls)
     (hin : BodyIn inpS inpW δ ms.c.nextPos b) :
     BodySim δ K fs st loops ms.c (runBody env inpS b ms) (runBody env inpW b mw) := by
   cases b with
   | seq s =>
-    refine runSeq_sim F hops fs st loops s hok hfsP h hK ?_ (hin s (by simp [Body.seqs]))
+    refine runSeq_sim F hops fs st loops s hok h hK ?_ (hin s (by simp [Body.seqs]))
     rcases hd with hd | ⟨s', hs', hst⟩
     · exact Or.inl hd
     · cases hs'; exact Or.inr hst
@@ -302,8 +302,8 @@ theorem runBody_sim (F : Frame inpS inpW δ) (hops : OpsSim env.ops inpS inpW δ
     | none => exact Or.inl trivial
     | some bb =>
       cases bb
-      · exact runSeq_sim F hops fs st loops e hok.2 hfsP h hK (Or.inl rfl) (hin e (by simp [Body.seqs]))
-      · exact runSeq_sim F hops fs st loops t hok.1 hfsP h hK (Or.inl rfl) (hin t (by simp [Body.seqs]))
+      · exact runSeq_sim F hops fs st loops e hok.2 h hK (Or.inl rfl) (hin e (by simp [Body.seqs]))
+      · exact runSeq_sim F hops fs st loops t hok.1 h hK (Or.inl rfl) (hin t (by simp [Body.seqs]))
 
 end
 end LolHtml.Model.Chunk
